@@ -29,4 +29,6 @@ For each of the two changes (number them 1 and 2) deliver, under {wt}/seedout/<n
 
 Procedure per change: make the edit; confirm `go build ./...` and the existing tests of affected packages pass (run them at least twice if concurrency is involved); write the demo test and confirm it fails with the change; `git stash` or revert the library edit and confirm the demo passes on the unchanged code; save the files; then `git checkout -- .` (and remove the demo test from the tree) before starting the second change so that the patches are independent. Leave the worktree clean at the end except for the seedout/ directory.
 
+Notes: store the demo copy under seedout/<n>/ with the name demo_test.go.txt is NOT wanted — keep the name demo_test.go, but because seedout/ lies inside the module, run the full suite as `go test -count=1 $(go list ./... | grep -v seedout)`. Do not use `git stash` (stashes are shared between worktrees); revert with `git checkout -- .` after saving your diff to a file.
+
 Finish with a brief report: for each change, one paragraph on what it does and why existing tests miss it.""")
